@@ -81,6 +81,18 @@ PROPS = {
                      'iteration over set(list) modelled as iteration over the list (order abstracted)'],
         design_ref='2 / C10',
     ),
+    'C13': dict(
+        level='proof',
+        functions=[SEQ + f for f in ('validateSequence', '__init__', '__init__#validate', '__init__#nonstr')] +
+                  [SP + f for f in ('__init__', 'get_sequence', 'get_length', '__len__')],
+        lemmas=['n_aa_strict', 'n_aa_nonneg'],
+        native='c13',
+        assumptions=['str.upper / str.isspace: exact on ASCII, trusted code-point maps chr_upper / chr_isspace beyond ASCII; upper-casing is assumed length-preserving (the native check covers the code points where it is not, e.g. U+00DF)',
+                     'the normalised word is characterised by a position map (|r| = #letters, letter j of the input sits at position #letters-before-j), not constructed',
+                     '"every analysis of the object equals the analysis of the normalised word": all analysis contracts are functions of self.seq and INV-determined fields only (C15); checked natively as well',
+                     'blank / whitespace-only text is rejected by the ZeroDivisionError of the proline-content division (the statement only asks for an exception)'],
+        design_ref='2 / C13',
+    ),
 }
 
 _BOUNDED_ONLY = ('deductive contracts for this property are not yet discharged in this build: the claim rests on the bounded native '
